@@ -332,8 +332,10 @@ def _reserved_source(ctx) -> None:
                 problems.append(f"names of {show(cls)} are added under `{show_conds(sorted(got, key=str), it)[:120]}`, expected: not "
                                 f"NAME.startswith('_') and (callable(attr) or isinstance(attr, property))")
             seen.append(cls)
-        if sorted(seen) != [("name", "Table"), ("name", "Vector")]:
-            problems.append(f"names are collected from {[show(c) for c in seen]}, expected Vector and Table (once each)")
+        # every class that serves accessor names by attribute access: Table (and the Vector it extends) and Row (row.<accessor>)
+        if sorted(seen) != [("name", "Row"), ("name", "Table"), ("name", "Vector")]:
+            problems.append(f"names are collected from {[show(c) for c in seen]}, expected Vector, Table and Row (once each): a public "
+                            f"name of a class that is left out (Row.set_index) shadows the column accessor of the same name on that class")
     ctx.ob("a.sanitiser", g, "reserved-source", not problems, "reserved = public callables/properties of Vector and Table", g.node,
            message="_get_reserved_names no longer collects every public callable/property of Vector and Table: " + "; ".join(problems[:2]))
 
@@ -660,6 +662,7 @@ def _fresh(ctx) -> None:
     allowed_loads = {
         "table.Table._current_column_map": "the freshness helper itself",
         "table.Row.__getattr__": "a Row reads its own snapshot taken at creation",
+        "table.Row.__getitem__": "a Row reads its own snapshot taken at creation",
         "table.Table.__setattr__": "the `is not None` initialisation test only",
     }
     n_reads = 0
@@ -769,7 +772,9 @@ MUTANTS = [
          desc="the defect repaired by fix d929723: a column named 'class' is advertised as .class"),
     dict(id="reserved-properties-forgotten", module=_N, old="				if callable(attr) or isinstance(attr, property):", new="				if callable(attr):",
          rules=["a.sanitiser"], desc="a column named like a property (shape, name, T) would shadow it"),
-    dict(id="reserved-only-vector", module=_N, old="		for cls in (Vector, Table):", new="		for cls in (Vector,):", rules=["a.sanitiser"]),
+    dict(id="reserved-only-vector", module=_N, old="		for cls in (Vector, Table, Row):", new="		for cls in (Vector,):", rules=["a.sanitiser"]),
+    dict(id="reserved-without-row", module=_N, old="		for cls in (Vector, Table, Row):", new="		for cls in (Vector, Table):", rules=["a.sanitiser"],
+         desc="reverts the fix: a column named 'set_index' is advertised as .set_index, which a Row answers with its own method"),
     dict(id="reserved-not-lowered", module=_N, old="					reserved.add(name.lower())", new="					reserved.add(name)", rules=["a.sanitiser"]),
     dict(id="reserved-suffix-dropped", module=_N, old="	if sanitized in _get_reserved_names() or keyword.iskeyword(sanitized):\n		sanitized = sanitized + '_'\n", new="", rules=["a.sanitiser"]),
     dict(id="headers-sep-differs", module=_D, old="				sep = \"\" if san.endswith(\"_\") else \"_\"", new="				sep = \"_\"", rules=["d.kernels-agree"]),
